@@ -904,3 +904,64 @@ def build(chk: Check) -> None:
     helper_level(chk)
     # ---- E2 ----
     e2_folded_unfolded(chk, decorated)
+    numeric_commutation(chk, decorated)
+
+
+def numeric_commutation(chk: Check, decorated: list[type]) -> None:
+    """Unfolding commutes with substituting NUMBERS, also when several arguments receive the same value (bounded, real classes):
+    C(sigma(args)).doit() == C(args).doit() under sigma, compared numerically. A body that manipulates its arguments by VALUE
+    (xreplace / subs on a built expression) instead of by position is only wrong when two arguments coincide."""
+    import itertools
+
+    FN = "ampform.sympy._decorator (every evaluate())"
+    for c in decorated:
+        try:
+            x = K.plain_instance(c)
+            # A-path exception (DESIGN): BlattWeisskopfSquared.evaluate takes a different path for a symbolic angular momentum
+            # (Hankel sum) than for a number (polynomial); the two agree for z > 0 only (C12). The angular momentum is
+            # therefore a fixed number here; collisions of other arguments WITH that number are still exercised.
+            fnames = [f.name for f in K.sympy_fields(c)]
+            if "angular_momentum" in fnames:
+                fixed = list(x.args)
+                fixed[fnames.index("angular_momentum")] = sp.Integer(2)
+                x = c(*fixed, **{f.name: getattr(x, f.name) for f in K.nonsympy_fields(c)})
+            syms = [a for a in x.args if isinstance(a, sp.Symbol)]
+            if not hasattr(x, "evaluate") or not syms or any(not (isinstance(a, sp.Symbol) or a.is_Integer) for a in x.args):
+                continue
+            unfolded = x.doit()
+            if unfolded.atoms(sp.tensor.array.expressions.array_expressions.ArraySymbol) if hasattr(sp.tensor.array.expressions, "array_expressions") else False:
+                continue
+        except Exception:  # noqa: BLE001
+            continue
+        maps = {
+            "all_ones": {s_: sp.Integer(1) for s_ in syms},
+            "all_twos": {s_: sp.Integer(2) for s_ in syms},
+            "counting": {s_: sp.Integer(k + 1) for k, s_ in enumerate(syms)},
+            "first_equals_each_other": None,
+        }
+        cases = [(k, v) for k, v in maps.items() if v is not None]
+        # first argument takes the value of each other argument in turn (generic distinct values elsewhere)
+        for j in range(1, len(syms)):
+            base = {s_: sp.Rational(3 + 2 * k, 2) if k else sp.Integer(0) for k, s_ in enumerate(syms)}
+            vals = {s_: sp.Integer(k + 2) for k, s_ in enumerate(syms)}
+            vals[syms[0]] = vals[syms[j]]
+            cases.append((f"arg0=arg{j}", vals))
+        bad = []
+        tried = 0
+        for name, m in cases:
+            try:
+                lhs = c(*[m.get(a, a) for a in x.args], **{f.name: getattr(x, f.name) for f in K.nonsympy_fields(c)}).doit()
+                rhs = unfolded.xreplace(m).doit()
+                a, b = complex(sp.N(lhs)), complex(sp.N(rhs))
+            except Exception:  # noqa: BLE001  (zoo, nan, not numeric: this assignment is outside the expression's domain)
+                continue
+            if not (abs(a) < 1e300 and abs(b) < 1e300) or a != a or b != b:
+                continue
+            tried += 1
+            if abs(a - b) > 1e-9 * (1 + abs(b)):
+                bad.append({"assignment": name, "values": {str(k): str(v) for k, v in m.items()}, "numbers_first_then_unfold": str(a), "unfold_then_numbers": str(b)})
+
+        def rep(_m=None, bad=bad, c=c):
+            return {"reproduced": bool(bad), "input": f"{c.__name__} with numeric arguments", "observed": bad[:2], "expected": "same value either way"}
+
+        chk.struct(f"commute.numeric_substitution[{c.__name__}]", not bad, FN, witness={"mismatches": bad[:3], "assignments_evaluated": tried}, replay=rep, bounded=True)
